@@ -108,12 +108,15 @@ def run(ck):
         dt = rng.choice([0.25, 0.5, 1.0, 2.0])
         upper = rng.random() < 0.4
         y = numpy.array([rng.randint(-8, 8) / 8.0 + 1j * rng.randint(-8, 8) / 8.0 for _ in range(N)])
+        # "all complex-valued data": the overall magnitude is part of the data (powers of two, so the exact model values scale exactly)
+        yscale = (1.0, 2.0 ** -50, 2.0 ** 40, 1.0, 2.0 ** -70)[h % 5]
+        y = y * yscale
         if upper:
             y[0] = y[0].real            # Hermitian-extendable: f(0) real
             t = TimeAxis(0.0, N, dt)
         else:
             t = TimeAxis(-(N // 2) * dt, N, dt, atype="complete")
-        inp = {"N": N, "dt": dt, "atype": t.atype, "y": [str(z) for z in y[:6]]}
+        inp = {"N": N, "dt": dt, "atype": t.atype, "y": [str(z) for z in y[:6]], "scale": yscale}
         # how the values got into the function: at construction, by assignment to .data of a function built real, or
         # by apply_to_data on a real function - the transform may only depend on axis and values
         how = rng.choice(["constructor", "constructor", "assigned", "applied"])
@@ -138,7 +141,7 @@ def run(ck):
             continue
         ck.case(("ft", N, dt, upper, how, y.tobytes()), nontrivial=(N >= 3), kind="transform", atype=t.atype, parity="odd" if N % 2 else "even", values_set_by=how,
                 sample=inp if h < 1 else None)
-        sc = max(1.0, float(numpy.abs(Fd).max()))
+        sc = max(yscale, float(numpy.abs(Fd).max()))
         td = numpy.array(t.data)
         if upper:
             tt = numpy.concatenate([td, -td[1:]])
@@ -151,7 +154,7 @@ def run(ck):
         if len(wd) != len(Fd) or dev > 1e-9 * sc * max(1, N):
             ck.fail(key, "Fourier transform differs from the direct Fourier sum at the frequencies of the returned axis", inp, dev, 1e-9 * sc * N)
         rt = float(numpy.abs(bd[:N] - y).max()) if len(bd) >= N else float("inf")
-        if rt > 1e-9 * max(1.0, float(numpy.abs(y).max())) * N or numpy.abs(numpy.array(back.axis.data)[:N] - td).max() > 1e-9 * max(1.0, abs(td).max()):
+        if rt > 1e-9 * max(yscale, float(numpy.abs(y).max())) * N or numpy.abs(numpy.array(back.axis.data)[:N] - td).max() > 1e-9 * max(1.0, abs(td).max()):
             ck.fail("roundtrip:%s:%s" % ("upper" if upper else "complete", "odd" if N % 2 else "even"),
                     "transforming and inverse-transforming does not return the original values on the original axis", inp, rt)
         # the pair in the other order: the inverse transform of a function of time (direct sum with e^{-iwt}, Hermitian extension on
@@ -163,7 +166,7 @@ def run(ck):
                 wg = numpy.array(G.axis.data).copy()
             refg = numpy.array([numpy.sum(yy * numpy.exp(-1j * w_ * tt)) * dt for w_ in wg])
             devg = float(numpy.abs(Gd - refg).max()) if len(Gd) == len(refg) else float("inf")
-            scg = max(1.0, float(numpy.abs(refg).max()))
+            scg = max(yscale, float(numpy.abs(refg).max()))
             if devg > 1e-9 * scg * max(1, N):
                 ck.fail("ift:%s:%s" % ("upper" if upper else "complete", "odd" if N % 2 else "even"),
                         "inverse Fourier transform of a function of time differs from the direct sum with exp(-i w t) on the returned axis", inp, devg)
@@ -177,7 +180,7 @@ def run(ck):
             gb = numpy.array(G.get_Fourier_transform().data)
             rt2 = float(numpy.abs(gb[:N] - y).max()) if len(gb) >= N else float("inf")
             ck.resid("inverse transform then transform (time -> frequency -> time)", rt2)
-            if rt2 > 1e-9 * max(1.0, float(numpy.abs(y).max())) * N:
+            if rt2 > 1e-9 * max(yscale, float(numpy.abs(y).max())) * N:
                 ck.fail("roundtrip:inverse-first:%s:%s" % ("upper" if upper else "complete", "odd" if N % 2 else "even"),
                         "inverse-transforming and then transforming does not return the original values", inp, rt2)
         except Exception as e:
@@ -190,13 +193,37 @@ def run(ck):
                 bu = numpy.array(Fu.get_inverse_Fourier_transform().data)
                 bu2 = numpy.array(F.get_inverse_Fourier_transform().data)
             du = max(float(numpy.abs(numpy.array(Fu.data) - Fd).max()) / sc,
-                     float(numpy.abs(bu - bd).max()), float(numpy.abs(bu2 - bd).max()))
+                     float(numpy.abs(bu - bd).max()) / yscale, float(numpy.abs(bu2 - bd).max()) / yscale)
             ck.resid("transforms inside a units context vs outside", du)
             if du > 1e-9 * N:
                 ck.fail("roundtrip:units-context", "Fourier transform or its inverse gives other values inside energy_units(%r)" % uc,
                         dict(inp, units=uc), du)
         except Exception as e:
             ck.fail("raises:ft:units-context", "transform inside a units context raised %r" % (e,), inp)
+        # a window function handed to the transform: the result is the Fourier sum of the windowed values
+        if h % 4 == 2:
+            try:
+                wv = numpy.array([rng.randint(0, 8) / 8.0 for _ in range(N)])
+                Fw = f.get_Fourier_transform(window=DFunction(t, wv.copy()))
+                Fwd = numpy.array(Fw.data)
+                yw = yy * (numpy.concatenate([wv, wv[1:]]) if upper else wv)
+                refw = numpy.array([numpy.sum(yw * numpy.exp(1j * w_ * tt)) * dt for w_ in wd])
+                devw = float(numpy.abs(Fwd - refw).max()) if len(Fwd) == len(refw) else float("inf")
+                ck.case(("ft-window", N, dt, upper, y.tobytes(), wv.tobytes()), nontrivial=(N >= 3), kind="transform", atype=t.atype,
+                        parity="odd" if N % 2 else "even", values_set_by="window")
+                if devw > 1e-9 * sc * max(1, N):
+                    ck.fail(key + ":window", "Fourier transform with a window differs from the direct Fourier sum of the windowed values",
+                            dict(inp, window=wv[:6].tolist()), devw)
+                if numpy.abs(numpy.array(f.data) - y).max() != 0.0:
+                    ck.fail(key + ":window:data", "transforming with a window changed the values of the function", dict(inp, window=wv[:6].tolist()))
+                if upper and len(Fwd) == 2 * N and N <= (20 if ck.quick else 40):
+                    emit("ftu %d %s %s %s" % (N, cfrac(dt), cfrac(complex(math.cos(PI / N), math.sin(PI / N))), " ".join(cfrac(v) for v in y * wv)),
+                         " ".join(cfrac(v) for v in Fwd), "ft")
+                elif not upper and N <= 40:
+                    emit("ft %d %s %s %s" % (N, cfrac(dt), cfrac(complex(math.cos(2 * PI / N), math.sin(2 * PI / N))), " ".join(cfrac(v) for v in y * wv)),
+                         " ".join(cfrac(v) for v in Fwd), "ft")
+            except Exception as e:
+                ck.fail("raises:ft:window", "transform with a window raised %r" % (e,), inp)
         if upper and len(Fd) == 2 * N and len(bd) == N and N <= (20 if ck.quick else 40):
             # upper-half axes: the Hermitian extension + 2N-point transform, and the upper half of the complete inverse
             z2 = complex(math.cos(PI / N), math.sin(PI / N))
@@ -228,6 +255,6 @@ def run(ck):
                 vb = [cfrac_to_complex(x) for x in b.split()]
                 d = max(abs(x - y_) for x, y_ in zip(va, vb)) if len(va) == len(vb) else float("inf")
                 ck.resid("max |impl-model| (ft)", d if d != float("inf") else 1e300)
-                if d > 1e-9 * max([1.0] + [abs(v) for v in vb]) * len(vb):
+                if d > 1e-9 * max([1e-300] + [abs(v) for v in vb]) * len(vb):     # relative to the size of the data, whatever it is
                     ck.disagree("transform differs by %.3g" % d, l[:120], a[:160], b[:160])
     return ck.finish()
